@@ -39,19 +39,40 @@ Definition violates s3on evs m k o : bool :=
   | None => false
   end.
 
-(** K-dedup across encodings, own witness: an attachment "ABCD" sent as 7bit,
-    then the same four octets sent as base64 ("QUJDRA=="): equal decoded hash,
-    the second part is served the first writer's text "ABCD" under its own
-    base64 label *)
+(** former class DedupEncoding (K-dedup), repaired by 573e876: an attachment
+    "ABCD" sent as 7bit, then the same four octets sent as base64 ("QUJDRA=="):
+    equal decoded hash, but the blob does not hold the second part's text, so the
+    reference is given back and the part stays inline — regression example *)
 Definition wit_dedup : list event :=
   [EStore false [] [] [mkPart (S_ "7bit") (S_ "ABCD") true];
    EStore false [] [] [mkPart (S_ "base64") (S_ "QUJDRA==") true]].
 
-Lemma refuted_dedup_encoding :
-  gclass wit_dedup 1 0 = Some DedupEncoding /\
+Lemma dedup_encoding_repaired :
+  gclass wit_dedup 1 0 = None /\
   gown wit_dedup 1 0 = Some (S_ "QUJDRA==") /\
-  gread false wit_dedup 1 0 [] = Some (Some (S_ "ABCD")) /\
-  violates false wit_dedup 1 0 [] = true.
+  gread false wit_dedup 1 0 [] = Some (Some (S_ "QUJDRA==")) /\
+  violates false wit_dedup 1 0 [] = false /\
+  map b_refs (w_blobs (grun wit_dedup)) = [1].
+Proof. vm_compute. repeat split; reflexivity. Qed.
+
+(** regression, about the OLD observable only: the first writer's text under
+    the second part's label violates the spec *)
+Lemma old_dedup_violates_spec : spec_read_ok (S_ "QUJDRA==") false (Some (S_ "ABCD")) = false.
+Proof. vm_compute. reflexivity. Qed.
+
+(** residual class: an EMPTY named part stored by a writer without S3 after a
+    writer with S3 stored a base64 part whose text is one CRLF (decodes to
+    nothing): same hash, blobHoldsContent compares GetBlob's "" for the S3 row
+    with the empty content and keeps the link; a reader with S3 gets CRLF *)
+Definition wit_empty : list event :=
+  [EStore true [] [] [mkPart (S_ "base64") crlf true];
+   EStore false [] [] [mkPart [] [] true]].
+
+Lemma refuted_empty_part_s3_blob :
+  gclass wit_empty 1 0 = Some EmptyPartS3Blob /\
+  gown wit_empty 1 0 = Some [] /\
+  gread true wit_empty 1 0 [] = Some (Some crlf) /\
+  violates true wit_empty 1 0 [] = true.
 Proof. vm_compute. repeat split; reflexivity. Qed.
 
 (** delivery stores to the object store, the reading side has S3 disabled:
